@@ -70,7 +70,11 @@ class TLCResult:
 
     def error_text(self):
         keep = [l for l in self.lines if not re.match(r'^(Linting|Semantic processing|Parsing file|Starting|Computing|Finished|Progress|TLC2|Running|Warning: Please|\(Use the|Picked up)', l)]
-        return '\n'.join(keep[-40:])
+        txt = '\n'.join(keep[-40:])
+        i = self.out.find('Fingerprint Stack Trace')
+        if i >= 0:
+            txt += '\n' + self.out[i:i + 1500]
+        return txt
 
 
 class Ctx:
@@ -244,7 +248,10 @@ class Ctx:
         os.makedirs(os.path.join(VERIF, 'evidence'), exist_ok=True)
         with open(os.path.join(VERIF, 'evidence', self.prop + '.json'), 'w') as f:
             json.dump(ev, f, indent=1, default=str)
-        shutil.rmtree(self.scratch, ignore_errors=True)
+        if os.environ.get('VERIF_KEEP'):
+            print('scratch kept at', self.scratch)
+        else:
+            shutil.rmtree(self.scratch, ignore_errors=True)
         if rc is not None:
             return rc
         if self.violations:
